@@ -153,6 +153,15 @@ Definition holds (c : case) (o : obs) : bool :=
   oc_same t o_to o_twice.
 Definition kf (c : case) : N := let '(t, x) := c in match kf_of t x with 0%N => kf_round t x | k => k end.
 
+(* known finding 2 (toInteger on a string that is no integer is an error instead of empty) explains a failure
+   only if the failure disappears once that error is read as empty; convertsToInteger answering true there, for
+   instance, is a different violation and stays unlisted *)
+Definition soften2 (x : oc) : oc := match x with OErr => OEmpty | _ => x end.
+Definition explained_by_kf (c : case) (o : obs) : bool :=
+  match kf c with
+  | 2%N => let '(o_to, o_conv, o_twice, o_round) := o in holds c (soften2 o_to, o_conv, soften2 o_twice, soften2 o_round)
+  | _ => true
+  end.
 Definition judge (x : N * case * obs) : verdict :=
   let '(id, c, o) := x in
-  {| v_id := id; v_agree := agrees c o; v_holds := holds c o; v_kf := kf c |}.
+  {| v_id := id; v_agree := agrees c o; v_holds := holds c o; v_kf := if explained_by_kf c o then kf c else 0%N |}.
